@@ -20,7 +20,7 @@ func init() { register("c11-wire", "C11", c11Wire) }
 // with and without SNI; the directory of the shared source is rewritten while fabio runs (new generation, broken
 // material, recovery).
 func c11Wire(c *ctx) {
-	c.R.Rule = "[c11-wire] the real binary with four TLS listeners: two non-strict and one strict on the same path certificate source (configured before and after each other), one strict on a source of its own (refresh 1s); real TLS 1.2/1.3 handshakes with exact, wildcard-covered, unknown, upper-case and absent server names; the leaf presented must be the one the statement names for the listener's own strictness and the set on disk (a strict listener fails the handshake for an uncovered name); the shared directory is replaced by a new generation (must be in effect within 5 refresh periods + 2s, no certificate outside old and new generation is ever presented), then garbled (the working set keeps being presented), then repaired. evaluations = handshakes; non-trivial = handshake on a strict listener or with an uncovered/absent name or during a reload; distinct by (listener, name, phase)"
+	c.R.Rule = "[c11-wire] the real binary with four TLS listeners: two non-strict and one strict on the same path certificate source (configured before and after each other), one strict on a source of its own (refresh 1s); real TLS 1.2/1.3 handshakes with exact, wildcard-covered, unknown, upper-case and absent server names; the leaf presented must be the one the statement names for the listener's own strictness and the set on disk (a strict listener fails the handshake for an uncovered name); start-up: a listener accepts connections before the first, asynchronous load of its source is installed, so until it has presented its first certificate (bound 30s, counter startup_handshakes_before_first_set) a handshake may fail but never present anything else than the reference's certificate, afterwards no handshake may fail; the shared directory is replaced by a new generation (must be in effect within 5 refresh periods + 2s, no certificate outside old and new generation is ever presented), then garbled (the working set keeps being presented), then repaired. evaluations = handshakes; non-trivial = handshake on a strict listener or with an uncovered/absent name or during a reload; distinct by (listener, name, phase)"
 	dirA, dirB := filepath.Join(c.Dir, "c11w-shared"), filepath.Join(c.Dir, "c11w-own")
 	os.MkdirAll(dirA, 0o755)
 	os.MkdirAll(dirB, 0o755)
@@ -89,15 +89,24 @@ func c11Wire(c *ctx) {
 		return m
 	}
 	// check performs one handshake and compares with the reference for the given sets (several when a reload is under way)
+	startupN := 0
 	check := func(l *lst, sni, phase string, sets ...c11Set) string {
-		ver := choose(r, []uint16{tls.VersionTLS12, tls.VersionTLS13, 0})
+		var ver uint16
+		if phase == "startup" {
+			// how many handshakes the start-up phase takes depends on timing: it does not draw from the case stream
+			ver = []uint16{tls.VersionTLS12, tls.VersionTLS13, 0}[startupN%3]
+			startupN++
+		} else {
+			ver = choose(r, []uint16{tls.VersionTLS12, tls.VersionTLS13, 0})
+		}
 		got, err := handshake(l, sni, ver)
 		c.R.Eval(1)
 		if l.strict || sni == "" || phase != "steady" || strings.Contains(sni, "unknown") {
 			c.R.Nontrivial(l.name + "|" + sni + "|" + phase)
 		}
 		allowed := map[string]bool{}
-		mayFail := false
+		// start-up: nothing has been loaded yet, so there is no "most recently loaded set" to present from
+		mayFail := phase == "startup"
 		for _, s := range sets {
 			acc := c11Acceptable(s, sni, l.strict)
 			if len(acc) == 0 {
@@ -127,6 +136,25 @@ func c11Wire(c *ctx) {
 			c.R.Sample(map[string]any{"listener": l.name, "strictmatch": l.strict, "server_name": sni, "presented_serial": got, "handshake_error": fmt.Sprint(err)})
 		}
 		return got
+	}
+	// ---- start-up: every listener has a store of its own which its source fills asynchronously (cert.TLSConfig starts
+	// the watcher and returns; main.go binds the listener right away), so a listener may accept connections before its first
+	// set is installed. The statement speaks about the most recently loaded set: until a listener has presented its first
+	// certificate a handshake may fail; a certificate presented that early must still be the one the reference names, the
+	// first set has to be in effect within startBound, and from then on (phase steady) no handshake may fail any more.
+	const startBound = 30 * time.Second
+	for _, l := range ls {
+		sni := (*l.set)[0].CN
+		for t0 := time.Now(); ; time.Sleep(20 * time.Millisecond) {
+			if check(l, sni, "startup", *l.set) != "" {
+				break
+			}
+			c.R.Count("startup_handshakes_before_first_set", 1)
+			if time.Since(t0) > startBound {
+				c.R.Violate("c11w:initial-set-not-in-effect:"+l.name, fmt.Sprintf("listener %s (strictmatch=%v): %s after it started to accept connections no handshake for %q has been presented a certificate although the source's directory has held a usable set since before fabio started", l.name, l.strict, time.Since(t0).Round(time.Millisecond), sni), nil)
+				return
+			}
+		}
 	}
 	rounds := c.scale(c.pick(6, 40))
 	for i := 0; i < rounds; i++ {
